@@ -181,7 +181,7 @@ theorem createMissingPrefixes (s : SepB r f) (env : Env) {node : Nat} (hn : node
         intro e he
         simp only [List.mem_map, List.mem_filter] at he
         obtain ⟨k, ⟨hk, -⟩, rfl⟩ := he
-        exact s.sep.kids_disj hn hg k hk _ (handle_mem_handles k)
+        exact s.sep.kids_disj hn hg k hk _ (fc_handle_mem_handles k)
   · rw [if_neg hd]
     split
     · exact s
@@ -288,7 +288,7 @@ theorem cloneNode_result (s : SepB r f) (n : Nat) {c : Nat} (hc : (f.cloneNode n
               subst hfc
               have hk' : k ∈ t.kids :=
                 (List.dropWhile_sublist _).subset (List.mem_of_mem_head? hd)
-              exact s2.sep.kids_disj h1 hgt k hk' _ (handle_mem_handles k)
+              exact s2.sep.kids_disj h1 hgt k hk' _ (fc_handle_mem_handles k)
         | none => rw [hfc] at hc; cases hc
       | none => rw [hk] at hc; cases hc
     · have h1 := (s.newNode src.value).2
